@@ -46,29 +46,42 @@ func goxFamilyExplore(c *core.Ctx, family string, sc goxScenario, fine bool, rep
 		judge(replay, got)
 		return
 	}
-	e := &gox.Explorer{MaxPreempt: 1, MaxMapDev: 0, MaxSwitch: 1, Stop: c.Expired}
-	var got string
-	nontrivial := int64(0)
-	e.ExploreRunner(func(prefix []int) gox.Execution {
-		var ex gox.Execution
-		got, ex = goxRunOnce(dir, sc, sc.CPU, true, prefix)
-		return ex
-	}, func(choices []int, ex gox.Execution) {
-		if ex.Tasks > 1 {
-			nontrivial++
+	pass := func(bound int, tag string) {
+		e := &gox.Explorer{MaxPreempt: bound, MaxMapDev: 0, MaxSwitch: bound, Stop: c.Expired}
+		var got string
+		nontrivial := int64(0)
+		e.ExploreRunner(func(prefix []int) gox.Execution {
+			var ex gox.Execution
+			got, ex = goxRunOnce(dir, sc, sc.CPU, true, prefix)
+			return ex
+		}, func(choices []int, ex gox.Execution) {
+			if ex.Tasks > 1 {
+				nontrivial++
+			}
+			if ex.Deadlock {
+				c.Violate(family+":"+sc.Name+":deadlock", fmt.Sprintf("scenario %s: every live task is blocked under choices %v", sc.Name, choices), goxFamilyPayload{family, sc, choices})
+			}
+			judge(choices, got)
+		})
+		c.EvalN(int64(e.Executions), nontrivial)
+		c.Observe(family+"_family", fmt.Sprintf("%s%s: %d schedules, %d tasks max", sc.Name, tag, e.Executions, e.MaxTasks))
+		if e.Capped {
+			c.Incomplete("family " + family + ", scenario " + sc.Name + tag + ": time budget reached before all schedules within the bound were run")
 		}
-		if ex.Deadlock {
-			c.Violate(family+":"+sc.Name+":deadlock", fmt.Sprintf("scenario %s: every live task is blocked under choices %v", sc.Name, choices), goxFamilyPayload{family, sc, choices})
+		if e.Divergences > 0 {
+			c.Incomplete(fmt.Sprintf("family %s, scenario %s%s: %d executions diverged from their choice vector", family, sc.Name, tag, e.Divergences))
 		}
-		judge(choices, got)
-	})
-	c.EvalN(int64(e.Executions), nontrivial)
-	c.Observe(family+"_family", fmt.Sprintf("%s: %d schedules, %d tasks max", sc.Name, e.Executions, e.MaxTasks))
-	if e.Capped {
-		c.Incomplete("family " + family + ", scenario " + sc.Name + ": time budget reached before all schedules within the bound were run")
 	}
-	if e.Divergences > 0 {
-		c.Incomplete(fmt.Sprintf("family %s, scenario %s: %d executions diverged from their choice vector", family, sc.Name, e.Divergences))
+	pass(1, "")
+	if c.Thorough() {
+		// thorough: a second pass with the coarse points (mutexes, wait groups, record boundaries) and two decisions
+		gox.EvalPoints, gox.LoopPoints = false, false
+		// the number of executions grows with the square of the choice points of the all-default execution
+		if _, probe := goxRunOnce(dir, sc, sc.CPU, true, nil); len(probe.Points) <= 150 {
+			pass(2, " (coarse points, 2 decisions)")
+		} else {
+			c.Observe(family+"_family_scenarios_left_at_one_decision", fmt.Sprintf("%s: %d coarse choice points", sc.Name, len(probe.Points)))
+		}
 	}
 }
 
